@@ -92,12 +92,23 @@ void RSModel::ResetAliases() {
 }
 
 bool RSModel::Erase(const EntityUID target) {
+  if (!core.Contains(target)) {
+    return false;
+  }
+  // Note: dependants are collected before erase, because afterwards target is not in the graph
+  auto dependants = core.RSLang().Graph().ExpandOutputs({ target });
+  dependants.erase(target);
   if (!core.Erase(target)) {
     return false;
   } else {
     dataFacet->Erase(target);
     calulatorFacet->Erase(target);
-    ResetDependants(target);
+    for (const auto dependant : dependants) {
+      if (!IsBaseSet(core.GetRS(dependant).type)) {
+        Calculations().ResetFor(dependant);
+        Values().ResetFor(dependant);
+      }
+    }
     NotifyModification();
     return true;
   }
